@@ -34,8 +34,9 @@ def spec_formula(n, E, okind, dflag, share):
     indeg = [z3.Sum(*[z3.If(E[u][v], one, zero) for u in range(n)]) for v in range(n)]
     outdeg = [z3.Sum(*[z3.If(E[u][v], one, zero) for v in range(n)]) for u in range(n)]
     bad = []
-    if share and share[0] == "samename":
-        pass  # two DISTINCT elements that merely carry the same name are not a duplicated element
+    if share and share[0] in ("samename", "implicit"):
+        pass  # two DISTINCT elements that merely carry the same name are not a duplicated element;
+        # "implicit" only changes HOW nodes enter the graph, not the graph
     elif share:
         if share[0] == "link":
             (u, v), (x, y) = share[1], share[2]
@@ -87,8 +88,17 @@ def build_and_validate(n, pairs, okind, dflag, share, flagvals=None):
     # (under the same-name selector the nodes, too, are distinct objects that carry one name)
     nodes = [M.Node(name="samename" if (share and share[0] == "samename") else f"N{i} 50%s {{x}} %d%%") for i in range(n)]
     net = M.Network(name="c06 %s {0}")
-    for nd in nodes:
-        net.add_node(nd)
+    implicit = bool(share and share[0] == "implicit")
+    for i, nd in enumerate(nodes):
+        # "implicit": only nodes that nothing else can introduce are added explicitly; the others enter the
+        # graph through add_link / add_origin / add_destination (some only after an intermediate validation)
+        if not implicit or (okind[i] == 0 and not dflag[i]):
+            net.add_node(nd)
+    if implicit:
+        try:
+            net.is_valid(raises=False)
+        except Exception:  # noqa
+            pass
     links = {}
     for (u, v) in pairs:
         present = bool(SB(z3.Bool(f"e_{u}_{v}"))) if flagvals is None else flagvals[(u, v)]
@@ -221,7 +231,7 @@ def replay(rec):
 
 
 def shares(n, pairs):
-    S = [None, ("samename",)]
+    S = [None, ("samename",), ("implicit",)]
     if len(pairs) >= 2:
         S.append(("link", pairs[0], pairs[-1]))
         if len(pairs) >= 3:
@@ -274,6 +284,7 @@ def main():
     for okind in itertools.product((0, 1, 2), repeat=n):
         for dflag in itertools.product((False, True), repeat=n):
             items.append((n, args.thorough, okind, dflag, None))
+            items.append((n, args.thorough, okind, dflag, ("implicit",)))
             if args.thorough:
                 pairs = [(u, v) for u in range(n) for v in range(n) if u != v]
                 for sh in shares(n, pairs)[1:]:
